@@ -115,8 +115,8 @@ func (c *RecConsumer) ConsumeEvent(ctx *models.ListenerContext) {
 		c.OnConsume(d)
 	}
 	if c.AutoAck {
-		d.Acked = true
 		ctx.Ack()
+		d.Acked = true // settled only once Ack() has returned
 	}
 }
 
